@@ -232,6 +232,11 @@ def _parse_genes(chrom: str, db: FeatureDB) -> List[Dict]:
                 else:
                     logger.warning(f"Found non CDS/exon child of transcript in feature: {feature}")
 
+            if not exons and not cds:
+                # a transcript row without exon/CDS rows of its own is its own single exon
+                logger.info(f"Inferring an exon for transcript {transcript.id}")
+                exons = [transcript]
+
             tx = _convert_features_to_transcript(
                 exons,
                 cds,
